@@ -636,3 +636,269 @@ Proof.
   destruct (s_cancelled _); cbn [fst]; [|exact K5].
   eapply treq_trans; [exact K5|apply treq_deliver_top].
 Qed.
+
+(* ---------------- who else's task record may change ---------------- *)
+Definition tcb (l : list tid) (s s' : st) : Prop :=
+  forall t, ~ In t l -> tk_core (tasks s' t) = tk_core (tasks s t).
+
+Lemma tcb_refl l s : tcb l s s.
+Proof. intros t _. reflexivity. Qed.
+
+Lemma tcb_trans l a b c : tcb l a b -> tcb l b c -> tcb l a c.
+Proof. intros H1 H2 t Ht. now rewrite (H2 t Ht), (H1 t Ht). Qed.
+
+Lemma tcb_weaken l l' a b : incl l l' -> tcb l a b -> tcb l' a b.
+Proof. intros Hi H t Ht. apply H. intros Hin. apply Ht, Hi, Hin. Qed.
+
+Lemma tcb_kframe l a b : kframe a b -> tcb l a b.
+Proof. intros K t _. apply K. Qed.
+
+Lemma tcb_same_tasks l a b : tasks b = tasks a -> tcb l a b.
+Proof. intros E t _. now rewrite E. Qed.
+
+Lemma tcb_upd_task s t g l : In t l -> tcb l s (upd_task s t g).
+Proof.
+  intros Hin t' Ht'. cbn. unfold upd. destruct (Nat.eqb_spec t' t); [subst; contradiction|reflexivity].
+Qed.
+
+Lemma tcb_cancel_timeout l s c : tcb l s (cancel_timeout s c).
+Proof. apply tcb_same_tasks. unfold cancel_timeout. destruct (s_timeout (scopes s c)); reflexivity. Qed.
+
+Lemma tcb_scope_cancel l s c b : tcb l s (scope_cancel s c b).
+Proof.
+  unfold scope_cancel. destruct (s_cancelled (scopes s c)); [apply tcb_refl|].
+  set (s2 := upd_scope (cancel_timeout s c) c _).
+  assert (K : tcb l s s2).
+  { eapply tcb_trans; [apply tcb_cancel_timeout|]. apply tcb_same_tasks. reflexivity. }
+  destruct (s_host (scopes s2 c)); [|exact K].
+  eapply tcb_trans; [exact K|]. apply tcb_kframe, kframe_deliver_top.
+Qed.
+
+Lemma tcb_scope_timeout l s c : tcb l s (scope_timeout s c).
+Proof.
+  unfold scope_timeout. destruct (s_deadline (scopes s c)); [|apply tcb_refl].
+  destruct (Z.leb z (now s)); [apply tcb_scope_cancel|]. apply tcb_same_tasks. reflexivity.
+Qed.
+
+Lemma tcb_suspend_on l s t f : In t l -> tcb l s (suspend_on s t f).
+Proof.
+  intros Hin. unfold suspend_on.
+  set (s2 := upd_task (upd_fut s f (fun x => mkFut (f_st x) (Some t))) t (tk_waiter (Some f))).
+  assert (K : tcb l s s2).
+  { intros t' Ht'. cbn. unfold upd. destruct (Nat.eqb_spec t' t); [subst; contradiction|reflexivity]. }
+  destruct (f_st (futs s f)); try (eapply tcb_trans; [exact K|apply tcb_same_tasks; reflexivity]).
+  destruct (k_must (tasks s t)); [|exact K].
+  eapply tcb_trans; [exact K|]. eapply tcb_trans; [apply tcb_kframe, kframe_fut_complete|].
+  now apply tcb_upd_task.
+Qed.
+
+Lemma tcb_park l s t : In t l -> tcb l s (park s t).
+Proof.
+  intros Hin. unfold park, new_fut.
+  eapply tcb_trans; [|now apply tcb_upd_task]. eapply tcb_trans; [|now apply tcb_suspend_on].
+  apply tcb_same_tasks. reflexivity.
+Qed.
+
+Lemma tcb_ret_to_puppet l s t r : In t l -> tcb l s (fst (ret_to_puppet s t r)).
+Proof.
+  intros Hin. unfold ret_to_puppet. cbn [fst].
+  eapply tcb_trans; [|apply tcb_same_tasks; reflexivity]. eapply tcb_trans; [|now apply tcb_park].
+  destruct r; try apply tcb_refl. now apply tcb_upd_task.
+Qed.
+
+Lemma tcb_begin_act l s t : In t l -> tcb l s (begin_act s t).
+Proof.
+  intros Hin. unfold begin_act. eapply tcb_trans; [|apply tcb_same_tasks; reflexivity]. now apply tcb_upd_task.
+Qed.
+
+Lemma tcb_incoming l s t fo : In t l -> tcb l s (fst (incoming s t fo)).
+Proof.
+  intros Hin. unfold incoming. cbn [fst]. eapply tcb_trans; [|apply tcb_same_tasks; reflexivity].
+  now apply tcb_upd_task.
+Qed.
+
+Lemma tcb_fold_fut_complete l v fs : forall a, tcb l a (fold_left (fun a f => fut_complete a f v) fs a).
+Proof.
+  induction fs as [|f fs IH]; intros a; cbn; [apply tcb_refl|].
+  eapply tcb_trans; [apply tcb_kframe, kframe_fut_complete|apply IH].
+Qed.
+
+Lemma tcb_event_set l s e : tcb l s (event_set s e).
+Proof.
+  unfold event_set. destruct (e_set (events s e)); [apply tcb_refl|].
+  eapply tcb_trans; [|apply tcb_fold_fut_complete]. apply tcb_same_tasks. reflexivity.
+Qed.
+
+Lemma tcb_event_wait l s t e : In t l -> tcb l s (fst (event_wait s t e)).
+Proof.
+  intros Hin. unfold event_wait. destruct (e_set (events s e)); cbn [fst]; [apply tcb_same_tasks; reflexivity|].
+  unfold new_fut. cbn [fst]. eapply tcb_trans; [|now apply tcb_suspend_on]. apply tcb_same_tasks. reflexivity.
+Qed.
+
+Lemma tcb_event_unwait l s e fo : tcb l s (event_unwait s e fo).
+Proof. destruct fo; apply tcb_same_tasks; reflexivity. Qed.
+
+Lemma tcb_finish_task l s t o : In t l -> tcb l s (finish_task s t o).
+Proof.
+  intros Hin. unfold finish_task. eapply tcb_trans; [|apply tcb_same_tasks; reflexivity].
+  set (s1 := upd_task s t _). assert (K : tcb l s s1) by now apply tcb_upd_task.
+  destruct (k_group (tasks s t)); [|exact K]. eapply tcb_trans; [exact K|apply tcb_same_tasks; reflexivity].
+Qed.
+
+Lemma tcb_exit_struct l s c t : In t l -> tcb l s (exit_struct s c t).
+Proof.
+  intros Hin. unfold exit_struct. eapply tcb_trans; [|now apply tcb_upd_task].
+  apply tcb_same_tasks.
+  assert (E : forall a, tasks (cancel_timeout a c) = tasks a).
+  { intros a. unfold cancel_timeout. destruct (s_timeout (scopes a c)); reflexivity. }
+  destruct (s_parent (scopes s c)); cbn [tasks upd_scope set_scopes]; rewrite E; reflexivity.
+Qed.
+
+Lemma tcb_scope_exit l s c t exc : In t l -> tcb l s (fst (scope_exit s c t exc)).
+Proof.
+  intros Hin. destruct (exit_ok_dec s c t) as [Hok|Hno].
+  - destruct (scope_exit_spec s c t exc Hok) as [s6 [K E]]. rewrite E.
+    apply (tcb_trans l s s6); [|apply tcb_same_tasks; reflexivity].
+    apply (tcb_trans l s (exit_struct s c t)); [now apply tcb_exit_struct|].
+    eapply tcb_trans; [apply tcb_kframe, kframe_restart|]. apply tcb_kframe, K.
+  - rewrite (scope_exit_fail s c t exc Hno). apply tcb_refl.
+Qed.
+
+Lemma tcb_scope_enter l s c t : In t l -> tcb l s (fst (scope_enter s c t)).
+Proof.
+  intros Hin. unfold scope_enter. destruct (s_active (scopes s c)); [apply tcb_refl|].
+  set (s3 := match k_cur (tasks s t) with Some p => _ | None => _ end).
+  assert (K3 : tcb l s s3).
+  { unfold s3. intros t' Ht'.
+    destruct (k_cur (tasks s t)); cbn; unfold upd; destruct (Nat.eqb_spec t' t);
+      try (subst; contradiction); reflexivity. }
+  assert (K5 : tcb l s (upd_scope (scope_timeout s3 c) c (sc_active true))).
+  { eapply tcb_trans; [exact K3|]. eapply tcb_trans; [apply tcb_scope_timeout|]. apply tcb_same_tasks. reflexivity. }
+  destruct (s_cancelled _); cbn [fst]; [|exact K5].
+  eapply tcb_trans; [exact K5|]. apply tcb_kframe, kframe_deliver_top.
+Qed.
+
+(* ---------------- provenance of task-done callbacks in the ready queue ---------------- *)
+Definition rq_td (s s' : st) : Prop :=
+  forall t, In (HTaskDone t) (ready s') -> In (HTaskDone t) (ready s).
+
+Lemma rq_td_refl s : rq_td s s.
+Proof. intros t H. exact H. Qed.
+
+Lemma rq_td_trans a b c : rq_td a b -> rq_td b c -> rq_td a c.
+Proof. intros H1 H2 t H. apply H1, H2, H. Qed.
+
+Lemma rq_td_same a b : ready b = ready a -> rq_td a b.
+Proof. intros E t H. now rewrite <- E. Qed.
+
+Lemma rq_td_kframe a b : kframe a b -> rq_td a b.
+Proof.
+  intros K t H. destruct (kf_ready _ _ K) as [l [E F]]. rewrite E in H.
+  apply in_app_or in H. destruct H as [H|H]; [exact H|].
+  rewrite Forall_forall in F. apply F in H. destruct H.
+Qed.
+
+Lemma rq_td_call_soon s h : (forall t, h <> HTaskDone t) -> rq_td s (call_soon s h).
+Proof.
+  intros Hh t H. cbn in H. apply in_app_or in H. destruct H as [H|[H|[]]]; [exact H|].
+  exfalso. now apply (Hh t).
+Qed.
+
+Lemma rq_td_timer_cancel s tm : rq_td s (timer_cancel s tm).
+Proof. intros t H. cbn in H. apply filter_In in H. apply H. Qed.
+
+Lemma rq_td_cancel_timeout s c : rq_td s (cancel_timeout s c).
+Proof.
+  unfold cancel_timeout. destruct (s_timeout (scopes s c)); [|apply rq_td_refl].
+  eapply rq_td_trans; [apply rq_td_timer_cancel|]. apply rq_td_same. reflexivity.
+Qed.
+
+Lemma rq_td_scope_cancel s c b : rq_td s (scope_cancel s c b).
+Proof.
+  unfold scope_cancel. destruct (s_cancelled (scopes s c)); [apply rq_td_refl|].
+  set (s2 := upd_scope (cancel_timeout s c) c _).
+  assert (K : rq_td s s2).
+  { eapply rq_td_trans; [apply rq_td_cancel_timeout|]. apply rq_td_same. reflexivity. }
+  destruct (s_host (scopes s2 c)); [|exact K].
+  eapply rq_td_trans; [exact K|]. apply rq_td_kframe, kframe_deliver_top.
+Qed.
+
+Lemma rq_td_scope_timeout s c : rq_td s (scope_timeout s c).
+Proof.
+  unfold scope_timeout. destruct (s_deadline (scopes s c)); [|apply rq_td_refl].
+  destruct (Z.leb z (now s)); [apply rq_td_scope_cancel|]. apply rq_td_same. reflexivity.
+Qed.
+
+Lemma rq_td_suspend_on s t f : rq_td s (suspend_on s t f).
+Proof.
+  unfold suspend_on.
+  set (s2 := upd_task (upd_fut s f (fun x => mkFut (f_st x) (Some t))) t (tk_waiter (Some f))).
+  assert (K : rq_td s s2) by (apply rq_td_same; reflexivity).
+  destruct (f_st (futs s f));
+    try (eapply rq_td_trans; [exact K|apply rq_td_call_soon; intros; discriminate]).
+  destruct (k_must (tasks s t)); [|exact K].
+  eapply rq_td_trans; [exact K|]. eapply rq_td_trans; [apply rq_td_kframe, kframe_fut_complete|].
+  apply rq_td_same. reflexivity.
+Qed.
+
+Lemma rq_td_park s t : rq_td s (park s t).
+Proof.
+  unfold park, new_fut. eapply rq_td_trans; [|apply rq_td_same; reflexivity].
+  eapply rq_td_trans; [|apply rq_td_suspend_on]. apply rq_td_same. reflexivity.
+Qed.
+
+Lemma rq_td_ret_to_puppet s t r : rq_td s (fst (ret_to_puppet s t r)).
+Proof.
+  unfold ret_to_puppet. cbn [fst]. eapply rq_td_trans; [|apply rq_td_same; reflexivity].
+  eapply rq_td_trans; [|apply rq_td_park]. destruct r; apply rq_td_same; reflexivity.
+Qed.
+
+Lemma rq_td_event_set s e : rq_td s (event_set s e).
+Proof.
+  unfold event_set. destruct (e_set (events s e)); [apply rq_td_refl|].
+  eapply rq_td_trans; [apply (rq_td_same s (upd_event s e (fun x => mkEvent true (e_waiters x)))); reflexivity|].
+  generalize (upd_event s e (fun x => mkEvent true (e_waiters x))).
+  induction (e_waiters (events s e)) as [|f fs IH]; intros a; cbn; [apply rq_td_refl|].
+  eapply rq_td_trans; [apply rq_td_kframe, kframe_fut_complete|apply IH].
+Qed.
+
+Lemma rq_td_event_wait s t e : rq_td s (fst (event_wait s t e)).
+Proof.
+  unfold event_wait. destruct (e_set (events s e)); cbn [fst].
+  - apply rq_td_call_soon. intros; discriminate.
+  - unfold new_fut. cbn [fst]. eapply rq_td_trans; [|apply rq_td_suspend_on]. apply rq_td_same. reflexivity.
+Qed.
+
+Lemma rq_td_scope_exit s c t exc : rq_td s (fst (scope_exit s c t exc)).
+Proof.
+  destruct (exit_ok_dec s c t) as [Hok|Hno].
+  - destruct (scope_exit_spec s c t exc Hok) as [s6 [K E]]. rewrite E.
+    apply (rq_td_trans s s6); [|apply rq_td_same; reflexivity].
+    apply (rq_td_trans s (exit_struct s c t)).
+    + unfold exit_struct. apply (rq_td_trans s (cancel_timeout (upd_scope s c (sc_active false)) c)).
+      * eapply rq_td_trans; [|apply rq_td_cancel_timeout]. apply rq_td_same. reflexivity.
+      * apply rq_td_same. destruct (s_parent (scopes s c)); reflexivity.
+    + eapply rq_td_trans; [apply rq_td_kframe, kframe_restart|]. apply rq_td_kframe, K.
+  - rewrite (scope_exit_fail s c t exc Hno). apply rq_td_refl.
+Qed.
+
+Lemma rq_td_scope_enter s c t : rq_td s (fst (scope_enter s c t)).
+Proof.
+  unfold scope_enter. destruct (s_active (scopes s c)); [apply rq_td_refl|].
+  set (s3 := match k_cur (tasks s t) with Some p => _ | None => _ end).
+  assert (K3 : rq_td s s3).
+  { unfold s3. apply rq_td_same. destruct (k_cur (tasks s t)); reflexivity. }
+  assert (K5 : rq_td s (upd_scope (scope_timeout s3 c) c (sc_active true))).
+  { eapply rq_td_trans; [exact K3|]. eapply rq_td_trans; [apply rq_td_scope_timeout|]. apply rq_td_same. reflexivity. }
+  destruct (s_cancelled _); cbn [fst]; [|exact K5].
+  eapply rq_td_trans; [exact K5|]. apply rq_td_kframe, kframe_deliver_top.
+Qed.
+
+Lemma rq_td_tick s dt : rq_td s (tick s dt).
+Proof.
+  intros t H. unfold tick in H. cbn in H. apply in_app_or in H. destruct H as [H|H]; [exact H|].
+  apply in_map_iff in H. destruct H as [x [E _]]. unfold handle_of_timer in E. destruct (tm_what x); discriminate.
+Qed.
+
+Lemma rq_td_remove_first s h : rq_td s (set_ready s (remove_first h (ready s))).
+Proof. intros t H. cbn in H. eapply in_remove_first; eauto. Qed.
